@@ -16,7 +16,9 @@ def parseNats (xs : List Sexp) : Option (List Nat) := xs.mapM Sexp.asNat?
 
 def parseSchema (items : List Sexp) : Option Schema := do
   let fs ← (← Sexp.field? items "fields").mapM fun x => match x with
-    | .list [c, p, k] => do pure (⟨← c.asNat?, ← p.asNat?, ← parseKind k⟩ : FieldDecl)
+    | .list [.list (c :: more), p, k] => do
+        pure ({ cls := ← c.asNat?, prop := ← p.asNat?, kind := ← parseKind k, also := ← parseNats more } : FieldDecl)
+    | .list [c, p, k] => do pure ({ cls := ← c.asNat?, prop := ← p.asNat?, kind := ← parseKind k } : FieldDecl)
     | _ => none
   let sup ← (← Sexp.field? items "supers").mapM fun x => match x with
     | .list (p :: r) => do pure ((← p.asNat?), (← parseNats r))
@@ -25,7 +27,10 @@ def parseSchema (items : List Sexp) : Option Schema := do
     | .list [p, q] => do pure ((← p.asNat?), (← q.asNat?))
     | _ => none
   let tr ← parseNats (← Sexp.field? items "trans")
-  pure { fields := fs, supers := sup, inverse := inv, transProps := tr }
+  let par ← ((Sexp.field? items "parents").getD []).mapM fun x => match x with
+    | .list (c :: r) => do pure ((← c.asNat?), (← parseNats r))
+    | _ => none
+  pure { fields := fs, supers := sup, inverse := inv, transProps := tr, parents := par }
 
 def parseWorld (items : List Sexp) : Option World := do
   let os ← (← Sexp.field? items "objs").mapM fun x => match x with
@@ -39,7 +44,16 @@ def parseOp : Sexp → Option Op
   | .list [.atom "add", f, s, t] => do pure (.add (← f.asNat?) (← s.asNat?) (← t.asNat?))
   | .list [.atom "assign1", f, s, t] => do pure (.assign (← f.asNat?) (← s.asNat?) [← t.asNat?])
   | .list (.atom "assign" :: f :: s :: xs) => do pure (.assign (← f.asNat?) (← s.asNat?) (← parseNats xs))
+  -- instance churn between assertions: `(kill o)` an instance without relations dies, `(new o)` instance `o` is
+  -- created only now (possibly at a dead instance's address), `(sweep)` dead nodes are removed from the graph
+  | .list [.atom "kill", _] => some .churn
+  | .list [.atom "new", _] => some .churn
+  | .list [.atom "sweep"] => some .churn
   | _ => none
+
+/-- the instances that die during the history -/
+def killed (ops : List Sexp) : List Nat :=
+  ops.filterMap fun x => match x with | .list [.atom "kill", o] => o.asNat? | _ => none
 
 def factLt (a b : Fact) : Bool :=
   a.1 < b.1 || (a.1 == b.1 && (a.2.1 < b.2.1 || (a.2.1 == b.2.1 && a.2.2 < b.2.2)))
@@ -57,9 +71,9 @@ def targetsOf (g : List Fact) (f o : Nat) : List Nat :=
   hashOrder ((g.filter fun r => r.1 == f && r.2.1 == o).map (·.2.2))
 
 /-- `content f o` = what the container field holds -/
-def showFields (S : Schema) (W : World) (content : Nat → Nat → List Nat) (g : List Fact) : String :=
+def showFields (S : Schema) (W : World) (dead : List Nat) (content : Nat → Nat → List Nat) (g : List Fact) : String :=
   let items := (List.range S.fields.length).flatMap fun f =>
-    ((List.range W.size).filter fun o => W.clsOf o == (S.decl f).cls).map fun o =>
+    ((List.range W.size).filter fun o => S.applies f (W.clsOf o) && !dead.contains o).map fun o =>
       match S.kindOf f with
       | .single => s!"{f}.{o}~" ++ "|".intercalate ((targetsOf g f o).map toString)
       | _ => s!"{f}.{o}=" ++ ",".intercalate ((hashOrder (content f o)).map toString)
@@ -73,12 +87,15 @@ def run (s : Sexp) : String :=
   | .list (.atom "h" :: items) =>
     match parseSchema items, parseWorld items, (Sexp.field? items "ops").bind (·.mapM parseOp) with
     | some S, some W, some ops =>
-      if !(inRange S W ops && ops.all (·.wellKinded S.kindOf) && W.rt.all (fun r => match r with | some x => x < W.size | none => true))
+      let dead := killed ((Sexp.field? items "ops").getD [])
+      -- an instance that dies takes part in no relation (its fields are empty, nothing refers to it) and plays no role
+      let deadOk := dead.all fun o => (asserted ops).all (fun r => r.2.1 != o && r.2.2 != o) && !W.rt.contains (some o)
+      if !(inRange S W ops && deadOk && ops.all (·.wellKinded S.kindOf) && W.rt.all (fun r => match r with | some x => x < W.size | none => true))
       then "error=ill-formed-case" else
       let σ := runModel S W ops
-      let model := showRels σ.g ++ "|" ++ showFields S W (fun f o => σ.st f o) σ.g
+      let model := showRels σ.g ++ "|" ++ showFields S W dead (fun f o => σ.st f o) σ.g
       let cl := closure (schemaRules S W) (fuelFor S W) (asserted ops)
-      let spec := if cl.2 then showRels cl.1 ++ "|" ++ showFields S W (fun f o => targetsOf cl.1 f o) cl.1
+      let spec := if cl.2 then showRels cl.1 ++ "|" ++ showFields S W dead (fun f o => targetsOf cl.1 f o) cl.1
                   else "spec-diverged"
       let trig := if σ.clob then "F-C15-1" else ""
       s!"model={model}\tspec={spec}\ttrig={trig}"
